@@ -382,6 +382,92 @@ def fault_script(ty, op):
     return lines
 
 
+# system calls that are the probe's own noise inside the windows, or that cannot fail by their contract
+FAULT_SKIP = {"write", "gettid", "getpid", "sched_yield", "exit", "exit_group", "set_tid_address", "rt_sigreturn",
+              "openat", "read", "close", "nanosleep", "clock_gettime", "clock_nanosleep", "tgkill", "alarm"}
+FAULT_ERRNO = {"mmap": "ENOMEM", "munmap": "ENOMEM", "mprotect": "ENOMEM", "mremap": "ENOMEM", "brk": "ENOMEM", "madvise": "ENOMEM",
+               "clone": "EAGAIN", "clone3": "EAGAIN", "futex": "EAGAIN"}
+
+
+def _marker(rec, ev, k):
+    return rec["call"] == "write" and ('\\"ev\\":\\"%s\\",\\"k\\":%d' % (ev, k)) in rec["args"]
+
+
+def discovered_faults(chk, col, bindir, tier, release=False, tag=""):
+    """Self-discovering fault enumeration.  A fault-free run of spawn / thread exit / join (or drop) is
+    recorded with EVERY system call traced; whatever system call the code under test issues inside the
+    windows [spawn called .. spawn returned] (owner), [join/drop called .. returned] (owner) and
+    [closure finished .. task gone] (thread) - whatever its name - is then made to fail, one occurrence
+    per run.  Expected: a spawn that returns Err leaves nothing behind, a spawn that returns Ok goes on
+    as usual; the thread terminates and join/drop behave as without the fault (a stack whose own munmap
+    was made to fail stays mapped by plan of the fault, not as a verdict)."""
+    combos = [("vec", "join", "ret"), ("u128", "join", "panic"), ("dv", "drop", "ret")]
+    if tier != "quick":
+        combos += [("a64d", "drop", "panic"), ("u8", "join", "ret")]
+    found = []
+    for ty, op, fin in combos:
+        script = ["set watchdog=2500", "baseline"] + ["one ty=u8 fin=ret op=join"] * WARM
+        script += ["one ty=%s fin=%s op=%s hdelay=%d" % (ty, fin, op, 3000 if op == "drop" else 0),
+                   "one ty=u128 fin=ret op=join", "quiesce"]
+        cal = T.run_probe(chk, bindir, "fault-discover-%s-%s-%s%s" % (ty, op, fin, tag), script, strace=True, trace="all", timeout=90)
+        o, b, info = T.normalise(cal)
+        if not completed(cal, info) or len(o) < WARM + 1:
+            col.add(cal, "fault")        # the code under test does not survive the fault-free script: data
+            continue
+        t = o[WARM]
+        k, h = t.k, info["h"]
+        recs = cal.strace
+        pos = {}
+        for r in recs:
+            for ev in ("spawn_call", "spawn_ret", "join_call", "join_ret", "drop_call", "drop_ret", "cend", "cpanic"):
+                if _marker(r, ev, k):
+                    pos[ev] = r["pos"]
+        if "spawn_call" not in pos or "spawn_ret" not in pos:
+            raise core.ToolError("fault discovery: the probe's event writes are not visible in the strace log (%s)" % sorted(pos))
+        windows = [("spawn", h, pos["spawn_call"], pos["spawn_ret"])]
+        if op + "_call" in pos and op + "_ret" in pos:
+            windows.append((op, h, pos[op + "_call"], pos[op + "_ret"]))
+        fin_ev = "cend" if "cend" in pos else "cpanic"
+        if t.tid is not None and fin_ev in pos:
+            windows.append(("exit", t.tid, pos[fin_ev], 10**12))
+        cands = []
+        for wname, pid, lo, hi in windows:
+            count = {}
+            for r in recs:
+                if r["pid"] != pid or r["call"].startswith("+"):
+                    continue
+                if wname == "exit" and r["pos"] < next((x["pos"] for x in recs if x["pid"] == pid), 0):
+                    continue
+                count[r["call"]] = count.get(r["call"], 0) + 1
+                if lo < r["pos"] < hi and r["call"] not in FAULT_SKIP and not T._restarted(r):
+                    cands.append((wname, r["call"], count[r["call"]], r["args"][:60]))
+        # one run per (window, call, ordinal); a futex wait may be issued a varying number of times: first only
+        seen = set()
+        for wname, call, ordn, args in cands:
+            key = (wname, call) if call == "futex" else (wname, call, ordn)
+            if key in seen:
+                continue
+            seen.add(key)
+            err = FAULT_ERRNO.get(call, "ENOMEM")
+            # (the owner also waits on futexes of the probe's own mailbox, a varying number of times: for
+            # futex every call of the run fails - all waits, the join's included, degrade to polling)
+            inject = "%s:error=%s" % (call, err) if call == "futex" else "%s:error=%s:when=%d" % (call, err, ordn)
+            r = T.run_probe(chk, bindir, "fault-x-%s-%s-%s-%s%d%s" % (ty, op, wname, call, ordn, tag), script, strace=True,
+                            inject=inject, timeout=60,
+                            trace=None if call in T.STRACE_SYSCALLS.split(",") else T.STRACE_SYSCALLS + "," + call)
+            r.release = release
+            o2, b2, info2 = col.add(r, "fault")
+            inj = info2.get("injected", [])
+            found.append({"scenario": "%s/%s/%s" % (ty, fin, op), "window": wname, "call": call, "occurrence": ordn, "error": err,
+                          "args": args, "injected_records": len(inj),
+                          "outcome": "crash" if info2.get("crash") else "timeout" if info2.get("timeout") else "completed",
+                          "planned_stack_leaks": info2.get("planned_stack_leaks", 0)})
+            if completed(r, info2) and not inj:
+                raise core.ToolError("discovered fault %s was not injected anywhere" % inject)
+    chk.extra["discovered_faults" + tag] = found
+    col.flush("faultx" + tag)
+
+
 def faults(chk, col, bindir, tier, release=False, tag=""):
     """Failure of each system call spawn performs: the (WARM+1)-th clone / stack mmap of the owner
     thread fails (strace fault injection; its counters are per task)."""
